@@ -182,8 +182,9 @@ def fam_composite(E, real=False):
 
     def op_waiter():
         t0, t1 = env.timeout(d[0], value=marks[0]), env.timeout(d[1], value=marks[1])
-        cv = yield (t0 & t1) | env.timeout(d[2], value=marks[2])
-        log('op', 'fired')
+        t2 = env.timeout(d[2], value=marks[2])
+        cv = yield (t0 & t1) | t2
+        log('op', 'fired', tuple(i for i, t in enumerate((t0, t1, t2)) if t in cv))
 
     def plain():
         for i in range(3):
@@ -209,6 +210,14 @@ def fam_composite(E, real=False):
         E.prove(EQ(an[2], lo), 'AnyOf-fires-with-first-member', ('%r vs %r', an[2], lo))
         E.prove(EQ(al[2], hi), 'AllOf-fires-with-last-member', ('%r vs %r', al[2], hi))
         E.prove(EQ(op[2], MIN(MAX(d[0], d[1]), d[2])), 'operator-conditions-compose')
+        # (t0 & t1) | t2 exposes exactly the members that have fired by then, also those of
+        # the nested condition that is still pending
+        for i in range(3):
+            if LT(d[i], op[2]):
+                E.prove(i in op[3], 'nested-condition-exposes-fired-members',
+                        ('member %d fired at %r before %r but is not exposed: %r', i, d[i], op[2], op[3]))
+            elif GT(d[i], op[2]):
+                E.prove(i not in op[3], 'condition-exposes-only-fired-members')
         E.prove(all(an[4]) and all(al[4]), 'condition-value-maps-members-to-their-values')
         E.prove(al[3] == (0, 1, 2), 'AllOf-exposes-all-members')
         # AnyOf exposes exactly the members that have fired by then
@@ -236,6 +245,8 @@ def fam_interrupt(E, real=False):
     log = Log()
     env = Environment()
     box = {}
+    old = env.event()
+    old.succeed('old news')             # processed long before anybody yields it
 
     def victim():
         k = 0
@@ -248,6 +259,15 @@ def fam_interrupt(E, real=False):
                 except Interrupt as intr:
                     k += 1
                     log('v', 'interrupted', intr.cause, j)
+                    if k == 1:
+                        # the handler waits for an event that fired long ago: a queued second
+                        # interrupt must be raised here (one per yield, in call order)
+                        try:
+                            news = yield old
+                            log('v', 'old-event', news)
+                        except Interrupt as intr2:
+                            k += 1
+                            log('v', 'interrupted', intr2.cause, j)
             log('v', 'step', j)
         log('v', 'end')
         return 'done'
@@ -293,6 +313,13 @@ def fam_interrupt(E, real=False):
         E.reach('interrupt-after-finish-ignored')
     if double and len(live) >= 2:
         E.reach('two-interrupts-in-one-step')
+        # the second interrupt of the step is delivered at the very next yield
+        vlog = [e for e in log.of('v') if e[1] in ('interrupted', 'old-event', 'step', 'end')]
+        for k, e in enumerate(vlog):
+            if e[1] == 'interrupted' and e[3] == 'c1':
+                nxt = vlog[k + 1] if k + 1 < len(vlog) else None
+                E.prove(nxt is not None and nxt[1] == 'interrupted' and nxt[3] == 'c1b',
+                        'queued-interrupt-raised-at-the-next-yield', ('%r', nxt and nxt[1:4]))
     if got:
         E.reach('interrupted')
 
